@@ -2750,6 +2750,22 @@ class StateEngine(object):
 
             return start
 
+        def get_map_start_index(context):
+            """
+            The start index for the Map state being entered by the event that
+            context belongs to. Only the event that *re-enters* a Map state
+            carries that Map's own "Range" at the top of the "Branch" stack (an
+            entry without an "Index"). When the Map is itself nested in a Map
+            Iteration or Parallel Branch and is entered for the first time the
+            top of the stack describes that parent branch, whose "Range" is the
+            parent's current block of MaxConcurrency, not this Map's.
+            """
+            context_state = context["State"]
+            if ("Branch" in context_state and len(context_state["Branch"]) and
+                "Index" not in context_state["Branch"][-1]):
+                return get_start_index(context)
+            return 0
+
         def asl_state_Map_delegate():
             """
             https://states-language.net/spec.html#map-state
@@ -2866,7 +2882,7 @@ class StateEngine(object):
                 if length and not "Branch" in context_state:
                     context_state["Branch"] = []
 
-                start = get_start_index(context)
+                start = get_map_start_index(context)
                 if length:
                     if start == 0:
                         if len(context_state["Branch"]) > 0:
@@ -3041,7 +3057,7 @@ class StateEngine(object):
             the "start" index to ensure we only set the RetryTimeout for
             the first "batch".
             """
-            if get_start_index(context) == 0:
+            if get_map_start_index(context) == 0:
                 retry_timeout = context["State"].get("RetryTimeout", 0)
             else:
                 retry_timeout = 0
@@ -3419,7 +3435,7 @@ class StateEngine(object):
         set we will re-enter the Map state, possibly several times, to process
         the next batch of items so again we want to suppress the history update.
         """
-        reentered_map = state_type == "Map" and get_start_index(context) != 0
+        reentered_map = state_type == "Map" and get_map_start_index(context) != 0
         if not context["State"].get("RetryCount") and not reentered_map:
             self.update_execution_history(
                 state_machine,
